@@ -200,7 +200,7 @@ Proof.
       * destruct (ltq_push_spec c s1 b (nonempty [nh])) as [Hq1 Hq2].
         destruct (ltq_push_spec c (ltq_push c s1 b (nonempty [nh])) tq [p0 :: pr]) as [Hq3 Hq4].
         injection H as <- <-.
-        split; [congruence|]. split.
+        split; [etransitivity; [apply Hq4|]; etransitivity; [apply Hq2|exact Hl1]|]. split.
         { unfold lgood. rewrite Hq3, Hq1. apply Forall_app. split; [apply Forall_app; split; auto|].
           - destruct (nonempty_one nh) as [[_ ->]|[Hn ->]]; constructor; auto.
           - constructor; [discriminate|constructor]. }
@@ -235,7 +235,7 @@ Proof.
     + intros H; injection H as <- <-. repeat split; auto.
       rewrite !concat_flat_map, Ht. cbn [flat_map]. rewrite Hr. perm_solve.
     + destruct (ltq_push_spec c s0 (ctq c es) [x :: r]) as [Hq1 Hq2].
-      intros H; injection H as <- <-. split; [congruence|]. split.
+      intros H; injection H as <- <-. split; [etransitivity; [apply Hq2|exact Hl0]|]. split.
       * unfold lgood. rewrite Hq1. apply Forall_app. split; auto. constructor; [discriminate|constructor].
       * rewrite !concat_flat_map, Hq1, Ht. rewrite flat_map_app. cbn [flat_map]. rewrite Hr. perm_solve.
   - apply pop_best_none in E. destruct E as [_ E].
@@ -261,7 +261,7 @@ Proof.
         -- intros H; injection H as <- <-. rewrite (Hnn eq_refl) in Hs. repeat split; auto.
            rewrite Hi3, Hs. perm_solve.
         -- destruct (ltq_push_spec c s3 (ctq c es) ((p0 :: pr) :: nonempty [nh])) as [Hq1 Hq2].
-           intros H; injection H as <- <-. split; [rewrite Hq2; reflexivity|]. split.
+           intros H; injection H as <- <-. split; [etransitivity; [apply Hq2|reflexivity]|]. split.
            ++ unfold lgood. rewrite Hq1. apply Forall_app. split; auto.
               constructor; [discriminate|]. destruct (nonempty_one nh) as [[_ ->]|[Hn ->]]; constructor; auto.
            ++ rewrite Hi3. rewrite !concat_flat_map, Hq1. rewrite flat_map_app. cbn [flat_map]. rewrite Hs.
@@ -320,13 +320,17 @@ Qed.
 Lemma allitems_nil {A} (bufs : list (list (option A))) :
   (forall b, b < length bufs -> bitems (nth b bufs []) = []) -> allitems bufs = [].
 Proof.
-  induction bufs as [|x r IH]; intros H; cbn; auto.
-  rewrite (H 0) by (cbn; lia). cbn. apply IH. intros b Hb. apply (H (S b)). cbn; lia.
+  induction bufs as [|x r IH]; intros H; [reflexivity|].
+  change (allitems (x :: r)) with (bitems x ++ allitems r).
+  rewrite IH; [|intros b Hb; apply (H (S b)); cbn; lia].
+  rewrite app_nil_r. apply (H 0). cbn; lia.
 Qed.
 Lemma concat_nil (ls : list (list task)) : (forall i, i < length ls -> nth i ls [] = []) -> concat ls = [].
 Proof.
-  induction ls as [|x r IH]; intros H; cbn; auto.
-  rewrite (H 0) by (cbn; lia). cbn. apply IH. intros b Hb. apply (H (S b)). cbn; lia.
+  induction ls as [|x r IH]; intros H; [reflexivity|].
+  change (concat (x :: r)) with (x ++ concat r).
+  rewrite IH; [|intros b Hb; apply (H (S b)); cbn; lia].
+  rewrite app_nil_r. apply (H 0). cbn; lia.
 Qed.
 
 Lemma mlive m c s : wf c -> minv m c s ->
@@ -334,8 +338,6 @@ Lemma mlive m c s : wf c -> minv m c s ->
 Proof.
   intros Hwf Hinv Hall.
   assert (H0 : 0 < cn c) by (unfold cn; lia).
-  assert (Hb : forall (sel : nat -> hbst task * option task),
-             (forall es, sel es = hb_sel c s es) -> False -> True) by auto. clear Hb.
   destruct m; cbn [minv msel mpend mstate] in *.
   - specialize (Hall 0 H0). destruct s; [auto|discriminate].
   - specialize (Hall 0 H0). destruct s; [auto|discriminate].
